@@ -125,7 +125,8 @@ class UniAdapter:
                     b = c.broker.get_token_balance(base)
                     q = c.broker.get_token_balance(quote)
                     return m.add_liquidity_by_tick(lo, hi, amount(cb, b), amount(cq, q))
-                out.append(Op(f"{name}.add[{rname},{cb},{cq}]", call, dev, f"{name}.add_liquidity_by_tick"))
+                lent = PositionInfo(lo, hi) in m._positions and m._positions[PositionInfo(lo, hi)].transferred
+                out.append(Op(f"{name}.add[{rname},{cb},{cq}]", call, dev, f"{name}.add_liquidity_by_tick", {"revalues": lent}))
         out.append(Op(f"{name}.add[unaligned]", lambda c: m.add_liquidity_by_tick(self.ranges["in"][0] + 1, self.ranges["in"][1],
                                                                               Decimal(1), Decimal(1), trim_tick=False), True,
                       f"{name}.add_liquidity_by_tick"))
@@ -145,11 +146,25 @@ class UniAdapter:
                     if not exists and (cls != "None" or not collect):
                         continue
 
-                    def call(c, k=k, cls=cls, collect=collect):
-                        liq = None if cls == "None" else int(amount(cls, m._positions[k].liquidity))
-                        return m.remove_liquidity(k, liq, collect=collect)
+                    def liq_of(k=k, cls=cls):
+                        return None if cls == "None" else int(amount(cls, m._positions[k].liquidity))
+
+                    def call(c, k=k, cls=cls, collect=collect, liq_of=liq_of):
+                        if not collect:
+                            return m.remove_liquidity(k, liq_of(), collect=False)
+                        c.spy_arg = liq_of() if k in m._positions else None
+                        return spied(c, m, lambda: m.remove_liquidity(k, c.spy_arg, collect=True), names=("collect_fee",))
+
+                    def prefix(c, log, k=k):
+                        # remove_liquidity(collect=True) = burn, then collect: the burn stands once collect was entered
+                        if any(e[0] == "collect_fee" for e in log):
+                            m.remove_liquidity(k, c.spy_arg, collect=False)
+                        for nm, a, kw, st in log:
+                            if st == "completed":
+                                getattr(m, nm)(*a, **kw)
+                    meta = {"multi": True, "market": m, "prefix": prefix} if collect else {}
                     out.append(Op(f"{name}.remove[{tag},{cls},{'collect' if collect else 'keep'}]", call,
-                                  cls in ("over", "0") or not exists, f"{name}.remove_liquidity"))
+                                  cls in ("over", "0") or not exists, f"{name}.remove_liquidity", meta))
             for c0, c1 in (("None", "None"), ("part", "part"), ("over", "over"), ("0", "part")):
                 if not exists and c0 != "None":
                     continue
